@@ -3,6 +3,7 @@ from ..cfg import cfg_of
 from ..defuse import du_of, walk, peel, callee_name, fmt
 from ..conds import lits_of, all_edge_lits, status_variant
 from ..callgraph import cg_of
+from ..roles import roles_of
 from ..common import arg_term, contains_call, call_named, field_path, assigns_of_return
 
 TEXT = ("Typestate analysis of the four-state field Delta.status, exhaustive over every write of that field and every "
@@ -77,6 +78,7 @@ def status_guard(body, block, facts):
 
 
 def run(facts, res):
+    R = roles_of(facts)
     cg = cg_of(facts)
     res.rule("A1", "changes are applied only on `status == Ready`; `Applied` is written only after a successful apply")
     res.rule("A2", "`Ready` is written in one place, only through the pass edges of all dependency checks")
@@ -156,7 +158,7 @@ def run(facts, res):
     for b in facts.repo_bodies():
         for (bi, st, v) in status_inits(b):
             inits.append((b, bi, st, v))
-            own_commit = any(t.callee is not None and t.callee.name == "write_raw_item" for _, t in b.calls())
+            own_commit = any(t.callee is not None and t.callee.name == R.name("raw_write") for _, t in b.calls())
             res.instance("A3", "%s initialises a Delta with status %s" % (b.path, v), b.loc(st.line))
             if v == "Pending":
                 continue
@@ -179,7 +181,7 @@ def run(facts, res):
                         reset_sites.append(s)
         marks = [s for s in cg.sites[rf.path] if s.targets and any(cg.reaches(t, ready_fns[0]) if ready_fns else False for t in s.targets)
                  and not any(cb for cb in s.closures)]
-        marks = [s for s in cg.sites[rf.path] if s.callee is not None and s.callee.name in ("mark_valid_deltas", "check_delta")]
+        marks = [s for s in cg.sites[rf.path] if s.callee is not None and s.callee.name in (R.name("mark_pass"), R.name("marker"))]
         ok = bool(reset_sites) and bool(marks) and all(any(cfg.dominates(r.block, m.block) for r in reset_sites) for m in marks)
         # whole map: the reset iterates the complete block map
         whole = False
@@ -216,7 +218,7 @@ def run(facts, res):
         if b is None:
             continue
         cfg = cfg_of(b)
-        marks = [s for s in cg.sites[b.path] if s.callee is not None and s.callee.name in ("mark_valid_deltas", "check_delta")]
+        marks = [s for s in cg.sites[b.path] if s.callee is not None and s.callee.name in (R.name("mark_pass"), R.name("marker"))]
         applies = [s for s in cg.sites[b.path] if any(t.path in [a.path for a in appliers] or any(cg.reaches(t, a.path) for a in appliers)
                                                       for t in s.targets + s.closures)
                    and not any(t.path in ("melda::Melda::reload",) for t in s.targets)]
@@ -268,9 +270,9 @@ def run(facts, res):
                         if l.kind == "call" and callee_name(l.term) == "contains_key" and l.truth is True and \
                                 "committed_objects" in field_path(l.term[2][0])[0]:
                             ok = True
-                        if l.kind == "variant" and l.variants == {"Ok"} and contains_call(l.term, "read_object", "read_raw_value"):
+                        if l.kind == "variant" and l.variants == {"Ok"} and contains_call(l.term, "read_object", R.name("obj_reader")):
                             ok = True
-                        if l.kind == "call" and callee_name(l.term) == "is_ok" and l.truth is True and contains_call(l.term[2][0], "read_object", "read_raw_value"):
+                        if l.kind == "call" and callee_name(l.term) == "is_ok" and l.truth is True and contains_call(l.term[2][0], "read_object", R.name("obj_reader")):
                             ok = True
                     res.instance("A5", "%s returns true under index membership / verified read: %s" % (pp, ok), pb.loc(st.line))
                     if not ok:
@@ -278,7 +280,7 @@ def run(facts, res):
             else:
                 pt = peel(t)
                 ok = pt[0] == "call" and callee_name(pt) in ("is_ok", "contains_key", "is_some") and \
-                    contains_call(t, "read_object", "read_raw_value", "contains_key")
+                    contains_call(t, "read_object", R.name("obj_reader"), "contains_key")
                 n_true += 1
                 res.instance("A5", "%s returns %s" % (pp, fmt(t, 4)), pb.loc(st.line))
                 if not ok:
@@ -330,7 +332,11 @@ def _roots(t):
     return out
 
 
+PACK_LOADER = ["try_load_pack"]
+
+
 def check_ready_earned(b, ready_block, facts, res):
+    PACK_LOADER[0] = roles_of(facts).name("pack_loader")
     cfg = cfg_of(b)
     du = du_of(b)
     edges = all_edge_lits(b, facts)
@@ -395,9 +401,9 @@ def check_ready_earned(b, ready_block, facts, res):
     must_pass("parents", "parent is Ready or Applied", parent_state_ok)
     # (b) packs: the verified pack loader (role: DataStorage method returning the pack bytes after the hash check)
     must_pass("packs", "pack loads and matches its hash",
-              lambda l: ((is_call(l, "is_err", False) or is_call(l, "is_ok", True)) and contains_call(l.term[2][0], "try_load_pack")
+              lambda l: ((is_call(l, "is_err", False) or is_call(l, "is_ok", True)) and contains_call(l.term[2][0], PACK_LOADER[0])
                          and elem_of(l.term[2][0], "packs"))
-              or (l.kind == "variant" and l.variants == {"Ok"} and contains_call(l.term, "try_load_pack") and elem_of(l.term, "packs")))
+              or (l.kind == "variant" and l.variants == {"Ok"} and contains_call(l.term, PACK_LOADER[0]) and elem_of(l.term, "packs")))
     # (c) changes
 
     def valid_rev(l, which):
